@@ -141,6 +141,63 @@ func VerifC17ProcessDNS(sc int) {
 	verifAssert(len(e.IP4Records) == 1, "C17:process-dns:returned-entry-is-a-copy")
 }
 
+// VerifC17ProcessDNSSingle: a response carrying a single record of one kind (0 A, 1 AAAA, 2 CNAME) for a new name is
+// stored under the question name and returned; a second, different record of the same kind is added and reported.
+func VerifC17ProcessDNSSingle(kind int) {
+	h, s := verifDNSHandler()
+	build := func(rd []byte) []byte {
+		m := verifDNSNew(verifU16(), 0x8180, 1, 1, 0, 0)
+		m.fixed("ab.cd")
+		m.root()
+		m.u16(1)
+		m.u16(1)
+		m.ptr(12)
+		t := []uint16{1, 28, 5}[kind]
+		at := m.rrHeader(t, 60)
+		m.raw(rd)
+		m.rdEnd(at)
+		return m.bytes()
+	}
+	n := []int{4, 16, 4}[kind]
+	rd1 := verifBytes(n)
+	if kind == 2 {
+		rd1 = []byte{1, 'x', 0xc0, 12}
+	}
+	e, err := h.ProcessDNS(verifUDPFrame(s, 53, 40000, build(rd1)))
+	verifReach("processed")
+	verifAssert(err == nil, "C17:single:response-accepted")
+	got := h.DNSFind("ab.cd")
+	switch kind {
+	case 0:
+		_, ok := got.IP4Records[verifAddr4(rd1)]
+		verifAssert(ok && len(e.IP4Records) == 1, "C17:single:a-record-stored-and-returned")
+	case 1:
+		_, ok := got.IP6Records[verifAddr16(rd1)]
+		verifAssert(ok && len(e.IP6Records) == 1, "C17:single:aaaa-record-stored-and-returned")
+	case 2:
+		verifAssert(len(got.CNameRecords) == 1 && len(e.CNameRecords) == 1, "C17:single:cname-record-stored-and-returned")
+		return
+	}
+	rd2 := verifBytes(n)
+	verifAssume(verifBytesDiffer(rd1, rd2))
+	e2, err := h.ProcessDNS(verifUDPFrame(s, 53, 40000, build(rd2)))
+	verifAssert(err == nil, "C17:single:second-response-accepted")
+	got = h.DNSFind("ab.cd")
+	if kind == 0 {
+		verifAssert(len(got.IP4Records) == 2 && len(e2.IP4Records) == 2, "C17:single:second-a-record-added-and-reported")
+	} else {
+		verifAssert(len(got.IP6Records) == 2 && len(e2.IP6Records) == 2, "C17:single:second-aaaa-record-added-and-reported")
+	}
+}
+
+func verifBytesDiffer(a, b []byte) bool {
+	d := byte(0)
+	for i := range a {
+		d |= a[i] ^ b[i]
+	}
+	return d != 0
+}
+
 // VerifC17ProcessDNSMalformed: a response with a pointer loop / truncated record is rejected and leaves the table alone.
 func VerifC17ProcessDNSMalformed(kind int) {
 	h, s := verifDNSHandler()
